@@ -43,3 +43,11 @@ chk("C17",
     "Contains.tla defines containment of a point in a polyline path exactly (on an explicit segment, or winding number of the implicitly closed PathSem loops inside under the rule, the same loops Coverage.tla fills). TLC enumerates every triangle (thorough: quadrilateral) on a 0..3 grid as path ops with open/closed/op-after-Close/first-op-LineTo variants and samples two-loop paths; the harness asks contains_point at every half-integer point around each path and TLC validates every answer.",
     "Trusted: harness path construction and query grid. Lattice inputs: flatten is the identity and all f32 arithmetic is exact. Points lying only on an implicit closing segment are left open.",
     "TLA+ spec (Contains.tla over PathSem/Geom) + TLC-enumerated paths + TLC trace validation of recorded answers", "DESIGN.md 7 C17")
+chk("C20",
+    "Builder.tla specifies PathBuilder as an append-only op log (rect = M L L L Z pattern), finish() = log with NonZero winding, Path::transform = pointwise affine map keeping order and winding, and arcs through exact rational start/end directions (unit Gaussian rationals) with radius, one-way turning, start/end point and signed axis-crossing-count predicates. TLC enumerates all builder call sequences of length <= 3 (4 thorough) over 11 lattice calls with 10 transforms, and 3456 arcs (12 start directions x 6 residual angles x 0..5 quarter turns x both signs x 4 radii incl. 0 and sweeps beyond a full turn); the harness records the real ops (arc quadratics sampled in f64) and TLC validates them.",
+    "Trusted: harness projection of f32 ops to 1/1024 px and f64 sampling of emitted quadratics at t=i/8; angle arguments are computed by the harness from the exact directions (atan2 in f64).",
+    "TLA+ spec (Builder.tla) + TLC-enumerated call sequences/arcs + TLC trace validation", "DESIGN.md 7 C20")
+chk("C19",
+    "Views.tla is a small state machine over the pixel buffer with word-view and byte-view write actions and the derived views (words A,R,G,B; bytes B,G,R,A; PNG = RGBA8 row-major un-premultiplied with floor(255c/a), transparent pixels passed through; from_vec resize; into_vec/into_inner). TLC enumerates sizes 0..3x0..3, five constructors and all write sequences to depth 2 (3 thorough) alternating between views; the harness performs them on the real DrawTarget, exports and decodes a PNG after every step, and TLC checks that every view agrees with the specification state after every action.",
+    "Trusted: harness word splitting, png crate decoder, little-endian host.",
+    "TLA+ state machine (Views.tla) + TLC-enumerated write sequences + TLC trace validation of all views after every step", "DESIGN.md 7 C19")
